@@ -87,7 +87,7 @@ pub fn compile(
 
 impl CompiledExpression {
     pub fn scheme<S: AsRef<str>>(&self, mdt: S) -> String {
-        let mdt = mdt.as_ref();
+        let mdt = escape_string(mdt.as_ref());
         format!(
             "(use-modules (lipe) (lipe find){})
 
